@@ -926,8 +926,12 @@ sexp sexp_read_error (sexp ctx, const char *msg, sexp ir, sexp port) {
   sexp_gc_var4(sym, name, str, irr);
   sexp_gc_preserve4(ctx, sym, name, str, irr);
   irr = ir;
-  name = (sexp_port_name(port) ? sexp_port_name(port) : SEXP_FALSE);
-  name = sexp_cons(ctx, name, sexp_make_fixnum(sexp_port_line(port)));
+  if (sexp_portp(port)) {
+    name = (sexp_port_name(port) ? sexp_port_name(port) : SEXP_FALSE);
+    name = sexp_cons(ctx, name, sexp_make_fixnum(sexp_port_line(port)));
+  } else {
+    name = SEXP_FALSE;          /* raised by arithmetic, not while reading */
+  }
   str = sexp_c_string(ctx, msg, -1);
   irr = ((sexp_pairp(irr) || sexp_nullp(irr)) ? irr : sexp_list1(ctx, irr));
   res = sexp_make_exception(ctx, sym = sexp_intern(ctx, "read", -1),
